@@ -201,6 +201,9 @@ pub fn build_other_history(p: &Plan) -> Summary {
             push_a(&mut s, *v, &x[i]);
             i += 1;
         }
+        // ... and once more by shrinking to one line and growing back with a single set
+        set_a(&mut s, *v, &x[0..1]);
+        set_a(&mut s, *v, &x[..]);
     }
     for (v, x) in p.strs.iter().rev() {
         set_s(&mut s, *v, "junk");
